@@ -164,7 +164,8 @@ impl Check for C08 {
                         }
                         // strict mode judges undeclared keys per member of an intersection the compiler did not merge
                         // (listed finding): only where one of the two spellings has such an intersection
-                        let has_inter = case.used1.contains_key("inter_unmerged_or_named") || case.used2.contains_key("inter_unmerged_or_named");
+                        let ext = |u: &BTreeMap<String, u32>| u.keys().any(|k| k.starts_with("extends_named:"));
+                        let has_inter = case.used1.contains_key("inter_unmerged_or_named") || case.used2.contains_key("inter_unmerged_or_named") || ext(&case.used1) || ext(&case.used2);
                         let suffix = if mode == "strict" && has_inter { ":intersection_member_named_or_inline" } else { "" };
                         out.mismatch(
                             ctx,
@@ -954,7 +955,7 @@ impl Check for C15 {
                         let has = |pred: &dyn Fn(&D) -> bool| d.any_node(&mut |n| pred(n)) || case.env.defs.iter().any(|(_, x)| x.any_node(&mut |n| pred(n)));
                         let suffix = if has(&|n| matches!(n, D::Tpl(parts) if parts.iter().any(|p| matches!(p, crate::den::TplPart::OneOf(_))))) {
                             ":template_union_placeholder"
-                        } else if mode == "strict" && has(&|n| matches!(n, D::Inter(_))) && case.used.contains_key("inter_unmerged_or_named") {
+                        } else if mode == "strict" && ((has(&|n| matches!(n, D::Inter(_))) && case.used.contains_key("inter_unmerged_or_named")) || case.used.keys().any(|k| k.starts_with("extends_named:"))) {
                             ":intersection_member_named_or_inline"
                         } else {
                             ""
